@@ -243,7 +243,22 @@ def check_realseed(cfg, acc):
     fails = []
     if cfg["f"] == "zero":
         return fails
+    import copy
     f = make(cfg)
+    g = copy.deepcopy(f)          # what sempler.ANM keeps: the copy must still draw from numpy's global generator
+    try:
+        np.random.seed(123)
+        a = f(4)
+        np.random.seed(123)
+        b = g(4)
+        np.random.seed(123)
+        c = g(4)
+        acc.transitions += 3
+        if not np.array_equal(b, c) or not np.array_equal(a, b):
+            fails.append(("deepcopy-not-global-stream", "a deep copy of %s does not follow numpy's global generator: after the same np.random.seed it returns %s / %s, the original %s" % (
+                desc(cfg, 4), np.asarray(b).tolist(), np.asarray(c).tolist(), np.asarray(a).tolist())))
+    except Exception as e:
+        return [("raises", "deep copy of %s raised %r" % (desc(cfg, 4), e))]
     for s in (0, 1, 2 ** 32 - 1):
         try:
             np.random.seed(s)
